@@ -37,6 +37,8 @@ const password = "pw-7Kq2mVx9Lr4TzB1nHc"
 func expect(exchange string, etype int, p refkdc.Perturb, addrsRequested bool) string {
 	as := exchange == "as"
 	switch p.Kind {
+	case "authtime-year":
+		return "reject" // centuries away from the client's clock (the simulated clock starts in 2000)
 	case "nonce", "cname", "cname-extra", "cname-regroup", "crealm", "other-key", "enc-flip", "enc-trunc", "enc-extend":
 		return "reject"
 	case "sealed-sname", "sealed-srealm":
